@@ -381,6 +381,7 @@ class Evaluator(object):
         self._class_schema = {}
         self._class_attr = {}
         self.notes = []
+        self.inlined = set()      # qualified names of package helpers whose bodies were evaluated symbolically
 
     # ------------------------------------------------------------------ modules
     def module_env(self, module):
@@ -1169,6 +1170,7 @@ class Evaluator(object):
         res = self.run_body(fn.body, inner)
         if res is None:
             raise Unsupported('helper does not return a value')
+        self.inlined.add(fi.qualname)
         return res
 
     def run_body(self, stmts, scope):
@@ -1195,6 +1197,18 @@ class Evaluator(object):
                 res = self.run_body(s.body if t.value else s.orelse, scope)
                 if res is not None:
                     return res
+                continue
+            if isinstance(s, (ast.For, ast.Delete)) or (isinstance(s, ast.Expr) and isinstance(s.value, ast.Call)
+                                                        and isinstance(s.value.func, ast.Attribute)
+                                                        and isinstance(s.value.func.value, ast.Name)
+                                                        and s.value.func.value.id in scope.env) or \
+                    (isinstance(s, ast.Assign) and len(s.targets) == 1 and isinstance(s.targets[0], ast.Subscript)
+                     and isinstance(s.targets[0].value, ast.Name) and s.targets[0].value.id in scope.env):
+                # table-building statements on local tables (result.update(...), result[k] = v, generating loops):
+                # same semantics as at module level; what cannot be folded turns the local opaque
+                if any(isinstance(n, ast.Return) for n in ast.walk(s)):
+                    raise Unsupported('return inside a loop')
+                self._run_toplevel([s], scope)
                 continue
             raise Unsupported('statement `%s` outside the declarative subset' % short(s, 60))
         return None
